@@ -9,6 +9,7 @@ def run(ctx):
     #    Next calls with live or cancelled contexts, time advancing around maxWait, the user's full()
     #    callback held and released (latency), Close at any moment; judged by Trace_Batch
     bubble_tv(ctx, "TestBatch", "batch", "Trace_Batch", "tv.cfg", "batch", {"n": ctx.pick(150, 1500), "reps": ctx.pick(3, 5)}, silent=False)
+    bubble_tv(ctx, "TestBatch", "batch", "Trace_Batch", "tv.cfg", "batch perturbed", {"n": ctx.pick(150, 1500), "reps": ctx.pick(2, 4)}, silent=False, perturb=True)
     ctx.assumptions += ["the source honours the context it is given; the hand-over instant of an item is recorded by the source itself",
                         "bubbles use Go >= 1.23 timer semantics (the harness module's go version)"]
 
